@@ -411,3 +411,146 @@ func init() {
 	gens["C11"] = mix("range", 180, 4500)
 	gens["C12"] = mix("limit", 180, 4500)
 }
+
+// ---- C13: multi-symbol and column-projected queries ------------------------------------------
+
+func (g *Gen) multiScenario() (string, []string) {
+	tfi := 3 + g.Intn(len(catalogTFs)-3)
+	if catalogTFs[tfi].name == "4H" {
+		tfi = 3
+	}
+	tf := catalogTFs[tfi]
+	sc := g.schema()
+	nowYear := time.Now().UTC().Year()
+	tags := []string{"multi", "tf:" + tf.name}
+	steps := []string{fmt.Sprint(nowYear)}
+	isVar := g.Intn(3) == 0
+	rt, ag := "f", "AG"
+	if isVar {
+		rt, ag = "v", "TICK"
+		tags = append(tags, "var")
+	}
+	nsym := 2 + g.Intn(3)
+	var syms []string
+	pool, _ := g.timePool(tf.ns, 6)
+	if tf.name == "1D" { // keep January 1 out (C08-F1)
+		for i := range pool {
+			if time.Unix(pool[i], 0).UTC().YearDay() == 1 {
+				pool[i] += 86400
+			}
+		}
+	}
+	var all []int64
+	for i := 0; i < nsym; i++ {
+		s := fmt.Sprintf("S%d", i)
+		syms = append(syms, s)
+		key := fmt.Sprintf("%s/%s/%s", s, tf.name, ag)
+		steps = append(steps, fmt.Sprintf("C:%s:%s:%s", key, rt, sc.cols))
+		if g.Intn(5) == 0 {
+			tags = append(tags, "empty_symbol")
+			continue // a symbol without rows
+		}
+		for r := 0; r < 1+g.Intn(2); r++ {
+			var parts []string
+			for j := 0; j < 1+g.Intn(6); j++ {
+				t := pool[g.Intn(len(pool))]
+				ns := int64(0)
+				if isVar {
+					t += int64(g.Intn(int(tf.ns / 1e9)))
+					ns = int64(g.Intn(1e9))
+				}
+				all = append(all, t)
+				parts = append(parts, fmt.Sprintf("%d,%d,%s", t, ns, hx(g.Bytes(sc.size))))
+			}
+			steps = append(steps, fmt.Sprintf("W:%s:%s:%s:%s", key, rt, sc.cols, strings.Join(parts, "+")))
+		}
+	}
+	// a bucket of the same symbols under another attribute group / timeframe (must not leak in)
+	steps = append(steps, fmt.Sprintf("C:S0/%s/OTHER:f:z=int64", tf.name))
+	steps = append(steps, fmt.Sprintf("W:S0/%s/OTHER:f:z=int64:%d,0,%s", tf.name, pool[0], hx(g.Bytes(8))))
+	if g.Intn(4) == 0 { // a symbol with other column names in the same attribute group
+		steps = append(steps, fmt.Sprintf("C:SZ/%s/%s:%s:other=int32", tf.name, ag, rt))
+		steps = append(steps, fmt.Sprintf("W:SZ/%s/%s:%s:other=int32:%d,0,%s", tf.name, ag, rt, pool[0], hx(g.Bytes(4))))
+		syms = append(syms, "SZ")
+		tags = append(tags, "schema_mismatch_symbol")
+	}
+	if len(all) == 0 {
+		all = append(all, pool[0])
+	}
+	for q := 0; q < 4+g.Intn(4); q++ {
+		var list []string
+		switch g.Intn(5) {
+		case 0:
+			list = []string{"*"}
+			tags = append(tags, "q:star")
+		default:
+			for _, s := range syms {
+				if s != "SZ" && g.Intn(3) != 0 {
+					list = append(list, s)
+				}
+			}
+			if g.Intn(4) == 0 {
+				list = append(list, "SX") // missing symbol
+				tags = append(tags, "q:missing_symbol")
+			}
+			if g.Intn(8) == 0 && !isVar && len(list) > 0 {
+				list = append(list, list[0]) // listed twice
+				tags = append(tags, "q:dup_symbol")
+			}
+			if g.Intn(6) == 0 && len(syms) > 0 && syms[len(syms)-1] == "SZ" {
+				list = append(list, "SZ")
+			}
+			g.R.Shuffle(len(list), func(i, j int) { list[i], list[j] = list[j], list[i] })
+			if len(list) == 0 {
+				list = []string{syms[0]}
+			}
+		}
+		ss, sn, es, en, lim, dir, cols := "-", "-", "-", "-", "-", "-", "-"
+		if g.Intn(3) == 0 {
+			a, b := g.boundNear(all, tf.ns)
+			ss, sn = fmt.Sprint(a), fmt.Sprint(b)
+			tags = append(tags, "q:range")
+		}
+		if g.Intn(3) == 0 {
+			a, b := g.boundNear(all, tf.ns)
+			es, en = fmt.Sprint(a), fmt.Sprint(b)
+		}
+		if g.Intn(4) == 0 && !isVar {
+			lim = fmt.Sprint(1 + g.Intn(6))
+			dir = []string{"F", "L"}[g.Intn(2)]
+			tags = append(tags, "q:limit")
+		}
+		if g.Intn(2) == 0 {
+			var cs []string
+			for _, n := range sc.names {
+				if g.Intn(2) == 0 {
+					cs = append(cs, n)
+				}
+			}
+			if g.Intn(4) == 0 {
+				cs = append(cs, "nosuch")
+			}
+			if g.Intn(6) == 0 && len(cs) > 0 {
+				cs = append(cs, cs[0]) // duplicate column name
+				tags = append(tags, "q:dup_column")
+			}
+			g.R.Shuffle(len(cs), func(i, j int) { cs[i], cs[j] = cs[j], cs[i] })
+			if len(cs) > 0 {
+				cols = strings.Join(cs, ",")
+				tags = append(tags, "q:project")
+			}
+		}
+		steps = append(steps, fmt.Sprintf("Q:%s/%s/%s:%s:%s:%s:%s:%s:%s:%s", strings.Join(list, ","), tf.name, ag, ss, sn, es, en, lim, dir, cols))
+	}
+	return "store " + strings.Join(steps, " "), tags
+}
+
+func init() {
+	gens["C13"] = func(g *Gen) {
+		n := g.N(160, 3000)
+		for i := 0; i < n; i++ {
+			line, tags := g.multiScenario()
+			g.Emit(line, tags...)
+		}
+	}
+}
